@@ -1,5 +1,6 @@
 import PlushModel
 import PlushProofs.Props.C20
+import PlushProofs.Lib.OutTagRender
 /-!
   C01 — string data is always HTML-escaped on output; only trusted HTML is verbatim.
   `Gen.writeCases` is TRANSLATED from the type switch of `compiler.write`; `writeVal` is its model on the
@@ -107,5 +108,15 @@ theorem C01_routes (h : HeapView) (t : StrTree) (f : Nat) (cs : List Chunk) (hw 
   obtain ⟨c, hc, hxc⟩ := hx
   obtain ⟨s, rfl⟩ := writeVal_strTree h t f cs hw c hc
   exact C01_esc_chunk_safe s x hxc
+
+/-- **END TO END: a string written in a template comes out escaped, whatever it contains.** For every content `c`
+    (no NUL, no backslash) the output of the template `<%="…"%>` spelling `c` contains none of `<` `>` `'` `"` — so no
+    string literal can open a tag or close an attribute in the page. Lexer, parser, evaluator and sink composed with
+    the escaper's safety theorem; holds for all data, heaps and partial feeders. -/
+theorem C01_string_literal_output_is_escaped_end_to_end (c : Bytes) (hno : ∀ x ∈ c, x ≠ 0 ∧ x ≠ 92)
+    (data : List (Bytes × Val)) (heap : Array HeapObj) (feeder : List (Bytes × Bytes)) :
+    ∃ out, (renderTop (LX.outTagSrc c) data heap feeder).1 = .ok out ∧ out = htmlEscape c
+      ∧ ∀ x ∈ out, x ≠ 60 ∧ x ≠ 62 ∧ x ≠ 39 ∧ x ≠ 34 :=
+  ⟨htmlEscape c, renderTop_outTag c hno data heap feeder, rfl, C20_html_no_specials c⟩
 
 end Plush
